@@ -135,7 +135,13 @@ impl Prop for Pair {
             _ => gen::inst_near(u, a, 1)?,
         };
         let datetime = u.coin(1, 2)?;
-        let (oa, ob) = if datetime && u.coin(1, 2)? { (gen::offset(u)?, gen::offset(u)?) } else { (0, 0) };
+        let (oa, ob) = if datetime && u.coin(1, 2)? {
+            let oa = gen::offset(u)?;
+            // both operands in the same zone one time in three
+            (oa, if u.coin(1, 3)? { oa } else { gen::offset(u)? })
+        } else {
+            (0, 0)
+        };
         Ok(PairCase { a, b, datetime, oa, ob })
     }
     fn check(c: &PairCase, cx: &mut Cx) -> Verdict {
